@@ -177,6 +177,12 @@ def cases():
         c.loud = True
         out.append(c)
 
+    # ---- a directory that comes and goes within the push, and a file of its name behind that: the cleaning of emptied directories
+    # meets a file where it expects a directory (no clash when saving: a/f is never written)
+    out.append(Case('a/f created, a/f deleted, then file a created', F, {'p0.patch': create(b'a/f', [b'n1', b'n2']), 'p1.patch': delete(b'a/f', [b'n1', b'n2']), 'p2.patch': create(b'a', [b'x1'])},
+                    ['p0.patch', 'p1.patch', 'p2.patch'], ['directory-came-and-went-then-a-file-of-its-name'], first_fail=None, props=('C05', 'C06'),   # (not C09: cut between p0 and p1 this is the recorded KF-03 - the directory is on disk when `a` is loaded)
+                    expect={'exit': '0', 'applied': ['p0.patch', 'p1.patch', 'p2.patch'], 'tree': dict(F, a=(b'x1\n', 0o644)), 'rejects': []}))
+
     # ---- known limitation (KF-03): a name that is a file for one patch and a directory for another, within one push
     out.append(Case('file a deleted, then a/b created', dict(F, a=(b'x\ny\n', 0o644)), {'p0.patch': delete(b'a', [b'x', b'y']), 'p1.patch': create(b'a/b', [b'n1', b'n2'])}, ['p0.patch', 'p1.patch'],
                     ['name-is-file-and-directory-within-one-push'], first_fail=None, props=('C09',)))
